@@ -86,7 +86,8 @@ pub fn c01(f: &Facts, o: &Outcome) -> Vec<String> {
     if let (Some(t), Some(l)) = (pos(o, |e| matches!(e, Event::Send(CbPacket::Transfer { .. }))), pos(o, |e| matches!(e, Event::Send(CbPacket::LoginSuccess { .. })))) { if t < l { why.push("Transfer before Login Success".into()); } }
     else if ss.iter().any(|p| matches!(p, CbPacket::Transfer { .. })) { why.push("Transfer without Login Success".into()); }
     // failure cases: nothing granted, the connection ends
-    let enc_bad = matches!(f.enc, Some(EncKind::WrongToken | EncKind::StaleToken | EncKind::OtherKey | EncKind::Garbage | EncKind::GarbageToken | EncKind::TokenPrefix(_)));
+    let enc_bad = matches!(f.enc, Some(EncKind::WrongToken | EncKind::StaleToken | EncKind::OtherKey | EncKind::Garbage | EncKind::GarbageToken | EncKind::TokenPrefix(_))) || matches!(f.enc, Some(EncKind::SecretLen(n)) if n != 16);
+    if enc_bad && o.undecodable { why.push("the server kept sending (bytes that do not decode) after an invalid Encryption Response".into()); }
     let auth_failed = !auth_calls.is_empty() && f.sc.verdicts.auth.is_err();
     if (enc_bad || auth_failed) && granted { why.push("Login Success / auth cookie / Transfer sent although authentication failed".into()); }
     if (enc_bad || auth_failed) && !o.result.starts_with("err") { why.push(format!("connection did not end with an error after failed authentication: {}", o.result)); }
